@@ -8,20 +8,20 @@ import json, os, subprocess, sys
 
 VERIF = os.path.dirname(os.path.dirname(os.path.abspath(__file__)))
 TAKEN = {
-    'C02': 'catch-all wildcard name table keyed without the method; json UseNumber in RequestDecoder; mapped array query params read under the attribute name; dropping query map params; query param whose name has a path wildcard name as prefix; RequestEncoder body aliasing a pooled buffer; removeAttributes deleting body attributes spelled like a mapped element name; default overwritten for unset non-string array params',
-    'C03': 'response cookie matched by attribute name; omitempty on defaulted collections; PathEscape/QueryUnescape mismatch on cookies; UseNumber in ResponseDecoder; alias-level Default lost; one resp variable shared across client calls; string header default applied only when the key is absent',
-    'C04': 'ip.To4 for ipv4/ipv6; client skipping validation of response cookies; pattern cache keyed by attribute name; dropping Required checks for nested collection elements; codegen.Walk skipping map keys; no client validation for collection-of-primitives bodies; ValidationExpr.Dup returning the receiver (Reference+override); json format via streaming decoder',
-    'C05': 'Fault precedence in StatusCode; errors.As replaced by a type assertion; service-level error responses lost when re-declared on a method; same-type same-status errors decoded with the first decoder; ErrorEncoder writing a second response on encode failure; error name missing from goa-attribute headers for bodiless errors; MarshalXML swapping timeout/temporary',
-    'C06': 'scheme dropped from later alternative requirements; copyReqs aliasing; stripping up to the last space; second scheme skipped when its optional credential is absent; only one credential wired to the implicit Authorization header; method-level Security losing to API-level; credential post-processing skipped for multipart',
-    'C08': 'projection memo keyed by the parent view; view override dropped for ArrayOf(ResultType); override back to default dropped; single-view fast paths leaking attributes; body view computation deleting header-mapped attributes from the type\'s views; per-method view variable not reset',
-    'C09': 'UUID examples from crypto/rand; SkipExist check moved; map iteration order leaking into openapi; temp files left in gen; wall-clock budget in the example loop; finalizing skipped example files; gen clean-up narrowed to current design\'s directories; date examples in local time zone',
-    'C13': 'Dup visited-set recording the source attribute; hashObject hashing in declaration order; union alternatives order; Meta map order; ValidationExpr.Dup sharing the Required backing array; swapped ignore flags in hashMap; DupAttribute sharing an empty Meta map; Equal short-cut on equal type IDs',
-    'C14': 'schema sharing by type name hash; dropping nested Required validation; maxLength off by one; collection default view projection skipped; ip.To4; literal fast path in ValidatePattern; cookie parameters documented under the attribute name',
-    'C15': 'text decoder aliasing a pooled buffer; pooled request buffers; text/* decoded as text; half-parsed Accept fallback; media type memoised by raw string; unparsable request Content-Type defaulting to JSON; honouring q=0 wrongly; ResponseDecoder not lower-casing the media type',
-    'C16': 'QueryUnescape instead of PathUnescape; wildcard table keyed by pattern only; SmartRedirectSlashes matching on the request context; pooled scratch context; off-by-one on the root catch-all; ResolvePattern memo keyed by decoded path; redirect Location built from the escaped path',
-    'C17': 'pattern cache ring buffer; ip.To4; atomic last-pattern memo; cache keyed by name; literal fast path via LiteralPrefix; pooled scratch buffer in json format validation; netip.ParseAddr accepting zone suffixes; compile failures memoised by the regexp format validator',
-    'C19': 'AppendToOutgoingContext instead of Set; header map lookup with a non-canonical name; capture counting len(b); span forwarded as trace; shared random buffer in shortID; shared discards backing array in trace options; ResponseCapture.ReadFrom not counting; truncation moved to a rune boundary',
-    'C20': 'pooled chi scratch contexts; unsynchronised shared rand; Accept normalisation memo in atomics; ErrorEncoder captured formatter; StreamCanceler registry keyed by len; lazy regexp init in a sync.Map entry; NewErrorID slicing a shared refilled buffer; mutex removed from the adaptive sampler',
+    'C02': 'catch-all wildcard name table keyed without the method; json UseNumber in RequestDecoder; mapped array query params read under the attribute name; dropping query map params; query param whose name has a path wildcard name as prefix; RequestEncoder body aliasing a pooled buffer; removeAttributes deleting body attributes spelled like a mapped element name; default overwritten for unset non-string array params; unset alias-typed params arriving as pointer to zero; RequestEncoder dropping the body on GET/HEAD',
+    'C03': 'response cookie matched by attribute name; omitempty on defaulted collections; PathEscape/QueryUnescape mismatch on cookies; UseNumber in ResponseDecoder; alias-level Default lost; one resp variable shared across client calls; string header default applied only when the key is absent; nested result type rendered with the parent\'s view name; Code() inside a function-only Response overwritten with 200',
+    'C04': 'ip.To4 for ipv4/ipv6; client skipping validation of response cookies; pattern cache keyed by attribute name; dropping Required checks for nested collection elements; codegen.Walk skipping map keys; no client validation for collection-of-primitives bodies; ValidationExpr.Dup returning the receiver (Reference+override); json format via streaming decoder; MustValidate not set for optional validated params next to a validated body; exclusive maximum compared with >',
+    'C05': 'Fault precedence in StatusCode; errors.As replaced by a type assertion; service-level error responses lost when re-declared on a method; same-type same-status errors decoded with the first decoder; ErrorEncoder writing a second response on encode failure; error name missing from goa-attribute headers for bodiless errors; MarshalXML swapping timeout/temporary; plain errors exposing Timeout() mapped to 504/408; API-level error response shadowing the service-level one',
+    'C06': 'scheme dropped from later alternative requirements; copyReqs aliasing; stripping up to the last space; second scheme skipped when its optional credential is absent; only one credential wired to the implicit Authorization header; method-level Security losing to API-level; credential post-processing skipped for multipart; required scopes taken from the first requirement listing a scheme; prefix stripping skipped for custom-header credentials',
+    'C08': 'projection memo keyed by the parent view; view override dropped for ArrayOf(ResultType); override back to default dropped; single-view fast paths leaking attributes; body view computation deleting header-mapped attributes from the type\'s views; per-method view variable not reset; type-level View meta winning over the parent view\'s override (views[0] vs Last); AppendHelpers keeping the last same-named helper',
+    'C09': 'UUID examples from crypto/rand; SkipExist check moved; map iteration order leaking into openapi; temp files left in gen; wall-clock budget in the example loop; finalizing skipped example files; gen clean-up narrowed to current design\'s directories; date examples in local time zone; length-validated map examples built by ranging over a Go map; SkipExist dropped on the example service file',
+    'C13': 'Dup visited-set recording the source attribute; hashObject hashing in declaration order; union alternatives order; Meta map order; ValidationExpr.Dup sharing the Required backing array; swapped ignore flags in hashMap; DupAttribute sharing an empty Meta map; Equal short-cut on equal type IDs; hashObject returning a constant marker for any seen object; DupType sharing primitive map KeyType',
+    'C14': 'schema sharing by type name hash; dropping nested Required validation; maxLength off by one; collection default view projection skipped; ip.To4; literal fast path in ValidatePattern; cookie parameters documented under the attribute name; projected types keeping required names the view omits; pattern anchors stripped in schemas',
+    'C15': 'text decoder aliasing a pooled buffer; pooled request buffers; text/* decoded as text; half-parsed Accept fallback; media type memoised by raw string; unparsable request Content-Type defaulting to JSON; honouring q=0 wrongly; ResponseDecoder not lower-casing the media type; unknown designed content type following Accept; not-found handler writing status before Content-Type',
+    'C16': 'QueryUnescape instead of PathUnescape; wildcard table keyed by pattern only; SmartRedirectSlashes matching on the request context; pooled scratch context; off-by-one on the root catch-all; ResolvePattern memo keyed by decoded path; redirect Location built from the escaped path; Vars unescaping chi\'s value slice in place (double decode on second call); path constructor trimming a leading slash of catch-all values',
+    'C17': 'pattern cache ring buffer; ip.To4; atomic last-pattern memo; cache keyed by name; literal fast path via LiteralPrefix; pooled scratch buffer in json format validation; netip.ParseAddr accepting zone suffixes; compile failures memoised by the regexp format validator; json format via Decoder+More (stray closer accepted); patterns rendered as raw literals losing CR',
+    'C19': 'AppendToOutgoingContext instead of Set; header map lookup with a non-canonical name; capture counting len(b); span forwarded as trace; shared random buffer in shortID; shared discards backing array in trace options; ResponseCapture.ReadFrom not counting; truncation moved to a rune boundary; 1xx WriteHeader treated as final by ResponseCapture; empty trusted request id accepted',
+    'C20': 'pooled chi scratch contexts; unsynchronised shared rand; Accept normalisation memo in atomics; ErrorEncoder captured formatter; StreamCanceler registry keyed by len; lazy regexp init in a sync.Map entry; NewErrorID slicing a shared refilled buffer; mutex removed from the adaptive sampler; NewErrorResponse writing an ID into the caller\'s shared error; websocket request builder writing the client-wide scheme',
 }
 TEMPLATE = '''You are helping evaluate a verification framework for the Go project goadesign/goa (a design-first framework: a DSL evaluates into an expression model, which generates HTTP/gRPC server, client and OpenAPI code). Your job is to act as a "bug seeder": produce TWO different realistic changes to goa's source, each of which breaks the semantic property quoted below while the code still compiles and the existing test suite still passes.
 
